@@ -379,8 +379,9 @@ def run(tier="quick", seed=0, jobs=16):
                 if rp["bstar"] is None:
                     d = [{"what": "no NLP row was generated for the grid='inf' constraint"}]
                     break
-                if abs(rp["bstar"]) > engine.BIG or not math.isfinite(rp["fine_max"]):
-                    continue
+                if abs(rp["bstar"]) > engine.BIG or not math.isfinite(rp["fine_max"]) or not math.isfinite(rp["fine_min"]) \
+                        or max(abs(rp["fine_max"]), abs(rp["fine_min"])) > engine.BIG:
+                    continue      # overflow: rows of magnitude > 1e7 absorb the unit change of the bound that identifies them
                 lower = bool(case["inf"].get("lower"))
                 ext = rp["fine_min"] if lower else rp["fine_max"]
                 tol = 1e-8 * (1 + abs(rp["bstar"]) + abs(ext))
